@@ -9,7 +9,7 @@ al = VerusUnit("al_astar", "al_astar", rlimit=60, paired_kani=(wit, []))
 dp = VerusUnit("c01_dispatch", "c01_dispatch", rlimit=60, paired_kani=(wit, []))
 eo = VerusUnit("c01_edge_oriented", "c01_edge_oriented", rlimit=60, clauses=r"callers\.2", paired_kani=(wit, []))
 UNITS = [al, dp, eo, wit]
-EXPLANATION = ("run_a_star + advance_search under contract: 'no path' is produced only by an exhausted queue with a target, and then (invariant EXP) the "
+EXPLANATION = ("'precisely those reachable', both directions: every vertex a permitted path reaches is labelled (lemma_reachable_is_labelled) AND every tree entry is reached from the origin by a path of permitted incident edges (invariant INC on the verbatim driver: an entry's edge is one of the incident edges of its parent; lemma_parents_reach_source: a chain of parent links leads from every entry to the origin; lemma_entry_is_reachable: that chain read backwards is a permitted path); run_a_star + advance_search under contract: 'no path' is produced only by an exhausted queue with a target, and then (invariant EXP) the "
                "labelled set is closed under every edge the frontier model permitted and does not contain the target; a returned tree contains the target; "
                "without a target the search returns only at queue exhaustion with the closed labelled set; "
                "the whole 'only if' argument as lemmas (induction on the path): with an exhausted queue every vertex that a permitted path from the source reaches is labelled, hence when 'no path' is reported NO permitted path from "
